@@ -43,6 +43,8 @@ mod imp {
         "fn mk(k) { return fn(x) { let a = \"aa\"\n let b = \"bb\"\n let c = \"cc\"\n println(a + b + c)\n return x + k } }\nlet mut g = mk(1)\nlet mut t = 0\nfn run(v) { return g(v) }\nt = t + run(1)\nt = t + run(2)\ng = mk(2)\nt = t + run(3)\nt = t + run(4)\nprintln(t)\n",
         "fn mk(k) { return fn(x) { let a = \"s1\"\n let b = \"s2\"\n println(a + b)\n return x + k } }\nlet mut g = mk(0)\nlet mut acc = 0\nfn call(v) { return g(v) }\nfor i in 0..5 { acc = acc + call(i)\n acc = acc + call(i)\n g = mk(i) }\nprintln(acc)\n",
         "fn outer() { let f = fn(n) { return n + 1 }\n let g = fn(x) { let y = f(x)\n return f(y) }\n return g(1) + g(2) }\nprintln(outer())\nfn fact() { let go = fn(n, acc) { if n <= 1 { return acc }\n return acc }\n let h = fn(n) { return go(n, 1) }\n return h(4) }\nprintln(fact())\n",
+        "fn mk(k) { return fn(x) { let a = \"t1\"\n let b = \"t2\"\n let c = \"t3\"\n println(a + b + c)\n return x + k } }\nlet mut g = mk(0)\nlet mut acc = 0\nfn call(v) { return g(v) }\nfor i in 0..8 { if i % 3 == 0 { acc = acc + call(i) }\n g = mk(i) }\nacc = acc + call(9)\nprintln(acc)\n",
+        "fn mk(k) { return fn(x) { let a = \"u1\"\n let b = \"u2\"\n println(a + b)\n return x + k } }\nlet mut g = mk(0)\nlet mut acc = 0\nfn call(v) { return g(v) }\nacc = acc + call(0)\nfor r in 1..6 { for j in 0..r { g = mk(j) }\n acc = acc + call(r) }\nprintln(acc)\n",
         "fn plain(x) { let s = \"p1\" + \"p2\"\n println(s)\n return x + 1 }\nfn mk() { let z = 5\n return fn(x) { let s = \"c1\" + \"c2\" + \"c3\"\n println(s)\n return x + z } }\nlet mut h = plain\nlet mut u = 0\nfn go(v) { return h(v) }\nu = go(1)\nu = go(2)\nh = mk()\nu = go(3)\nu = go(4)\nh = plain\nu = go(5)\nu = go(6)\nprintln(u)\n",
     ];
 
@@ -241,7 +243,7 @@ mod imp {
 
     pub fn mutate(base: &Function, rng: &mut Rng, gap: (u32, u32)) -> (String, Function) {
         let mut f = deep(base);
-        let kind = rng.below(18);
+        let kind = rng.below(20);
         let tag;
         match kind {
             0 => tag = "asis".to_string(),
@@ -411,6 +413,28 @@ mod imp {
                 f = g;
                 tag = "random".into();
             }
+            18 | 19 => {
+                // a call site turned into CallGlobalMono with hand-written cache words: any callee pointer, slot ids
+                // around the current length of the call-site cache (the words are not verified, the loop guards them)
+                let g = pick_fn(&mut f, rng);
+                let mut c = code(g);
+                let calls: Vec<usize> = grid(&c).into_iter().filter(|&i| is3(c[i] >> 24) && i + 2 < c.len()).collect();
+                if calls.is_empty() {
+                    tag = "monowords-none".into();
+                } else {
+                    let i = *rng.pick(&calls);
+                    let slots = [0u32, 1, 2, 3, 4, 5, 8, 63, 64, 65, 4095, 4096, 65535, rng.below(16) as u32];
+                    let slot = *rng.pick(&slots);
+                    let ptrs = [1u64, 2, 40, 100, 0xFFFF_FFFF, 0xFFFF_FFFF_FFFF, rng.below(300)];
+                    let ptr = *rng.pick(&ptrs);
+                    let op = if rng.chance(3, 4) { 78 } else { 104 };
+                    c[i] = (c[i] & 0x00FF_FFFF) | (op << 24);
+                    c[i + 1] = (ptr & 0xFFFF_FFFF) as u32;
+                    c[i + 2] = ((((ptr >> 32) as u32) & 0xFFFF) << 16) | (slot & 0xFFFF);
+                    set_code(g, c);
+                    tag = format!("monowords:{}:op{}:ptr{}:slot{}", i, op, ptr, slot);
+                }
+            }
             16 | 17 => {
                 // nested function whose upvalue descriptors sit at / around the end of the enclosing frame's
                 // upvalue array (the verifier only counts descriptors): instantiated from a plain function
@@ -529,8 +553,11 @@ mod imp {
         verif::sink_install();
         verif::gc_mode_set(gc, 0);
         verif::budget_set(budget);
-        verif::site_log_install();
-        verif_sites::enable(true);
+        let sites = !flag("--no-sites");      // sanitizer leg: perform every raw access for real, nothing is refused
+        if sites {
+            verif::site_log_install();
+            verif_sites::enable(true);
+        }
         let r = guarded(std::panic::AssertUnwindSafe(|| vm.execute(fr)));
         verif_sites::enable(false);
         let log = verif::site_log_take();
@@ -750,6 +777,7 @@ mod imp {
         let nfirst = arg_u64("--first", 24) as usize;
         let gap = (arg_u64("--gap-lo", 1) as u32, arg_u64("--gap-hi", 0) as u32);
         let sweep_all = flag("--sweep-all");
+        let histories = arg_u64("--histories", 40);
         if let Some(line) = arg("--one-verify") {
             let mut vm = new_vm();
             let toks: Vec<&str> = line.split_whitespace().collect();
@@ -766,6 +794,21 @@ mod imp {
                 }
             }
             println!("FROMU8\t{}", acc.join(" "));
+            return;
+        }
+        if let Some(file) = arg("--src") {
+            // one source program, unmutated, at every optimisation level, without and with a collection at every safepoint
+            let text = std::fs::read_to_string(&file).expect("src");
+            for opt in 0..4u32 {
+                for gc in [0u8, 2] {
+                    let mut vm = new_vm();
+                    match compile(&mut vm, &text, opt) {
+                        Some(f) => run_case_gc(&format!("src-o{}-gc{}", opt, gc), &mut vm, &f, gap, budget, nfirst, &format!("src:o{}:gc{}", opt, gc), gc),
+                        None => println!("E\tcompile-failed\tsrc\t{}", opt),
+                    }
+                }
+            }
+            print_hist();
             return;
         }
         if let Some(file) = arg("--corpus") {
@@ -824,6 +867,17 @@ mod imp {
                         let f = sweep_fn(&mut vm, op, v, abc);
                         run_case(&format!("s{}v{}a{}", op, v, abc.0), &mut vm, &f, gap, budget, nfirst, &format!("sweep:op{}:v{}", op, v));
                     }
+                    if v != 0 {
+                        continue;
+                    }
+                    // operands exactly at and one past every boundary the verifier draws (8 registers, 3 constants, no upvalues):
+                    // single registers, a+c / b+c call windows, a..a+2 and b..b+c-1 ranges, constant indices, jump distances
+                    for (k, abc) in [(7u32, 7u32, 7u32), (8, 0, 0), (0, 8, 0), (0, 0, 8), (5, 1, 2), (5, 1, 3), (1, 5, 2), (1, 5, 3),
+                                     (6, 0, 0), (1, 5, 4), (0, 2, 0), (0, 3, 0), (0, 0, 2), (0, 0, 3), (0, 255, 254), (0, 255, 255)].iter().enumerate() {
+                        let mut vm = new_vm();
+                        let f = sweep_fn(&mut vm, op, 0, *abc);
+                        run_case(&format!("s{}b{}", op, k), &mut vm, &f, gap, budget, nfirst, &format!("sweep:op{}:boundary{}", op, k));
+                    }
                 }
             }
             // CallUpval / TailCallUpval are not emitted by the typed pipeline: hand-built closure calling a captured function
@@ -847,6 +901,30 @@ mod imp {
                 let load_leaf = if leaf_is_closure { ins(35, 2, 0, 0) } else { ins_imm(2, 2, 0) };
                 set_code(&mut main, vec![load_leaf, ins(35, 5, 1, 1), ins(21, 6, 5, 0), ins(22, 6, 0, 0)]);
                 run_case(&format!("u{}c{}", op, leaf_is_closure as u8), &mut vm, &main, gap, budget, nfirst, &format!("sweep:upvalcall{}", op));
+            }
+            // random call-site-cache histories under a collection at every safepoint: one call site, a global that is
+            // rebound to fresh closures / plain functions, calls skipped, garbage of several kinds in between
+            for n in 0..histories {
+                let mut src = String::from("fn mk(k) { return fn(x) { let a = \"h1\"\n let b = \"h2\"\n let c = a + b\n return x + k } }\nfn mk2(k) { let z = k + 1\n return fn(x) { let a = \"q\"\n return x + z } }\nfn plain(x) { let s = \"p\" + \"q\"\n return x + 1 }\nfn mkf() { return fn(x) { let a = \"f1\"\n let b = \"f2\"\n let c = a + b\n return x + 2 } }\nlet mut g = mk(0)\nlet mut acc = 0\nlet mut junk = \"j\"\nlet mut jv = Vec[]\nfn call(v) { return g(v) }\n");
+                let len = 8 + rng.below(22);
+                for i in 0..len {
+                    match rng.below(9) {
+                        0 | 1 | 2 => src.push_str(&format!("acc = acc + call({})\n", i)),
+                        3 | 4 => src.push_str(&format!("g = mk({})\n", i)),
+                        5 => src.push_str(&format!("g = mk2({})\n", i)),
+                        6 => src.push_str(if rng.chance(1, 3) { "g = plain\n" } else { "g = mkf()\n" }),
+                        7 => src.push_str("junk = junk + \"x\"\n"),
+                        _ => src.push_str(&format!("jv = Vec[]\njv.push({})\n", i)),
+                    }
+                }
+                src.push_str("println(acc)\n");
+                let opt = rng.below(4) as u32;
+                let gc = if rng.chance(4, 5) { 2 } else { 0 };
+                let mut vm = new_vm();
+                match compile(&mut vm, &src, opt) {
+                    Some(f) => run_case_gc(&format!("h{}", n), &mut vm, &f, gap, budget * 3, nfirst, &format!("p99o{}:history:len{}{}", opt, len, if gc == 2 { ":gc" } else { "" }), gc),
+                    None => println!("E\tcompile-failed\thistory\t{}", n),
+                }
             }
             for n in 0..cases {
                 let mut vm = new_vm();
